@@ -15,6 +15,7 @@ RULE = ("vectors of length 0-60 of eight classes (normal, integer with ties, con
         "class, entry point); non-trivial = length >= 2 with a defined value, or an undefined case.")
 RULE += " " + 'Vector class offset (forecast = obs + non-binary constant); irrelevant -r/-b on deterministic scores; sub-percent quantile aggregator levels.'
 RULE += " " + 'Rounds 9-10: metrics that do not support -agg are also run with an (ignored) -agg; vector classes offset and tiny (values of order 1e-5 with non-zero variance).'
+RULE += " " + 'Rounds 11-12: every metric leaves the arrays it is given unchanged; half of the datasets get all six scores along one axis from one Data object.'
 ASSUMPTIONS = ["population (1/N) variance in stderror/std, as verif documents 'standard deviation' without Bessel correction",
                "rank correlation = Pearson correlation of mid-ranks; Kendall = tau-b"]
 REQUIRED_COUNTERS = ["vector_evals", "perfect_checks", "never_better_checks", "data_evals", "csv_values", "undefined_checks"]
